@@ -159,13 +159,19 @@ func genC15(t *rapid.T) c15Case {
 		if rapid.Bool().Draw(t, "default") {
 			c.Param = td.Default
 		}
-		minBytes = max(128, (minBitsFor(td, c.Param)+7)/8)
+		minBytes = max(16, (minBitsFor(td, c.Param)+7)/8)
 	case "round":
 		minBytes = 1121
 	case "readgroup", "b2":
 		minBytes = 1
 	}
 	nb := uniformInt(t, minBytes, max(minBytes, 4000), "nbytes")
+	if rapid.IntRange(0, 9).Draw(t, "boundary_len") == 0 { // byte lengths at the run-length cut-off / regime boundaries (40*2^j, 784, 93750, ...)
+		b := rapid.SampledFrom([]int{40, 80, 160, 320, 640, 1280, 2560, 5120, 10240, 784, 125, 1250}).Draw(t, "blen") + rapid.IntRange(-1, 1).Draw(t, "dlen")
+		if b >= minBytes {
+			nb = b
+		}
+	}
 	if rapid.IntRange(0, 30).Draw(t, "big") == 0 && thorough() {
 		nb = 125000
 	}
